@@ -12,7 +12,8 @@ EXPLANATION = (
     "Data.len have exactly the confirmed writers and the block position is set from the running compressed position; "
     "(R4) the direct-read fast path is guarded by buf.len() >= BGZF_MAX_ISIZE (paired-guard constant); (R5) the writer's "
     "virtual position is (position, staging_buf.len())."
-    " R5 also decides that every frame the writer emits advances `position` by that frame's size: after each call that writes a frame (write_frame, or a helper of the same return type whose result derives from it) every success path adds a value derived from that call to the position field.")
+    " R5 also decides that every frame the writer emits advances `position` by that frame's size: after each call that writes a frame (write_frame, or a helper of the same return type whose result derives from it) every success path adds a value derived from that call to the position field."
+    " (R6) pairing: a reader function that stamps a loaded block with its compressed position also moves the running `position` past that block (a write derived from Block::size, directly or through a reader function it calls), in all four reader variants.")
 ASSUMPTIONS = ["the inner Seek::seek positions the source at the requested compressed offset",
                "crossbeam/rayon deliver blocks in ticket order (C03)"]
 NOT_DECIDED = ["equality with a flat-array reference model over arbitrary read/seek histories",
@@ -245,6 +246,12 @@ def run(ctx):
                     start_after=emits_frame, stmt_pred=advances)
     ctx.floor("C02.R5", "frame-emitting call sites in the BGZF writer", nsites, 1)
 
+    # ---------------------------------------------------------------- R6 loaded block <-> running position
+    ctx.rule("C02.R6", "A3 pairing: whenever a reader stamps a loaded block with its compressed position it also moves its running `position` "
+                       "past that block (a value derived from Block::size), in every read and seek implementation (sync, MT, async fn, poll)")
+    stamp_position_rule(ctx, "C02.R6", ("noodles_bgzf::io::reader::", "noodles_bgzf::io::multithreaded_reader::", "noodles_bgzf::r#async::io::reader::",
+                                        "<noodles_bgzf::r#async::io::reader::", "<noodles_bgzf::io::reader::", "<noodles_bgzf::io::multithreaded_reader::"), 4)
+
 
 def _mentions_field(st, name):
     if st[0] != "=":
@@ -278,3 +285,72 @@ def _derives_from_field(f, op, field, max_nodes=200):
                         return True
                     stack.extend(R.operand_locals(o))
     return False
+
+
+def _advances_position(fb, g, is_size):
+    """Does g, or a reader function it reaches within three calls, write the `position` field with a value derived from
+    Block::size? (seek -> read_block -> read_nonempty_block_with)"""
+    for k in fb.reach([g.key], max_depth=3):
+        h = fb.fns.get(k)
+        if h is None or h.crate != g.crate:
+            continue
+        for blk in h.blocks:
+            if blk.get("cu"):
+                continue
+            for st in blk["s"]:
+                if st[0] == "=" and any(n == "position" for n, _o in C.place_fields(st[1])) and \
+                        any(R.derives_from_call(h, o, is_size) for o in R.rvalue_operands(st[2])):
+                    return True
+    return False
+
+
+def stamp_position_rule(ctx, rule, prefixes, floor):
+    """Whenever a reader stamps a loaded block with its compressed position it also moves its running `position` past it."""
+    fb = ctx.fb
+    is_size = R.mk_pred(r"noodles_bgzf::io::block::Block::size$")
+    nst = 0
+    for key, f in sorted(fb.fns.items()):
+        if not key.startswith(prefixes):
+            continue
+        stamps = [b for b, c in f.calls() if (c.get("f") or "") == "noodles_bgzf::io::block::Block::set_position"]
+        if not stamps:
+            continue
+        # functions that only build a block (frame parsing) and have no reader state are not concerned
+        pos_writes = [bi for bi, blk in enumerate(f.blocks) if not blk.get("cu") for st in blk["s"]
+                      if st[0] == "=" and any(n == "position" for n, _o in C.place_fields(st[1]))]
+        if not pos_writes:
+            continue
+        nst += len(stamps)
+        ctx.saw_fn(f)
+        good = set()
+        for bi, blk in enumerate(f.blocks):
+            if blk.get("cu"):
+                continue
+            for st in blk["s"]:
+                if st[0] == "=" and any(n == "position" for n, _o in C.place_fields(st[1])) and \
+                        any(R.derives_from_call(f, o, is_size) for o in R.rvalue_operands(st[2])):
+                    good.add(bi)
+        # ... or a call to a reader function that does so itself (seek = discard the block, then read_block())
+        for b, c in f.calls():
+            g = fb.fns.get(c.get("f") or "")
+            if g is not None and g.key != f.key and _advances_position(fb, g, is_size):
+                good.add(b)
+        ex = C.success_exit_blocks(f)
+        bad = None
+        for sb in stamps:
+            if sb in good:
+                continue
+            before = sb in C.reachable(f, 0, removed=good)
+            after = [e for e in ex if e in C.reachable(f, sb, removed=good)]
+            if before and after:
+                bad = sb
+                break
+        if bad is None:
+            ctx.ok(rule, f.root + " :: stamped block and running position move together", "%d stamp(s), %d size-derived position write(s)" % (
+                len(stamps), len(good)), f.loc(stamps[0]))
+        else:
+            ctx.violation(rule, rule + "/position-not-advanced/" + f.root,
+                          "%s stamps a loaded block with its compressed position on a path on which the reader's running `position` is not moved "
+                          "past that block (no write derived from Block::size): every later block is stamped too low and virtual positions and "
+                          "chunk-end tests are off by one block" % f.root, f.loc(bad))
+    ctx.floor(rule, "block stamps in the BGZF readers", nst, floor)
